@@ -272,6 +272,54 @@ fn run_case<B: Backend>(bk: &str, st: &mut Stats, lean: &mut Option<LeanDriver>,
         }
     }
 
+    // flavour 3: FlipSep — the SEPARATOR's AsRef answers differently on successive calls (a: the separator, b: a shorter
+    // or longer one, c: '~'s). The pieces are fixed. Whatever the implementation does with such a separator, the value it
+    // returns must be the join of the pieces with ONE of the three answers (or it panics): sizing the buffer with one
+    // answer and copying another exposes bytes nobody supplied.
+    if consistent && ps1.len() >= 2 {
+        let mut alts: Vec<Vec<u8>> = vec![];
+        if !sep.is_empty() {
+            alts.push(sep[..sep.len() - 1].to_vec());
+        }
+        let mut longer = sep.to_vec();
+        longer.push(b'#');
+        alts.push(longer);
+        for alt in alts {
+            for (first, second) in [(sep.to_vec(), alt.clone()), (alt.clone(), sep.to_vec())] {
+                let third = vec![b'~'; second.len()];
+                let mkf = || FlipRef { a: first.clone(), b: second.clone(), c: third.clone(), calls: Rc::new(Cell::new(0)) };
+                let refs: Vec<&[u8]> = ps1.iter().map(|p| &p[..]).collect();
+                let mut flip_cases: Vec<(String, Obs)> = vec![];
+                flip_cases.push((format!("HipByt<{bk}>::join_slices[FlipSep]"), observe_byt::<B>(|| HipByt::join_slices(&refs, mkf()))));
+                flip_cases.push((format!("HipByt<{bk}>::join[FlipSep]"), observe_byt::<B>(|| HipByt::join(ps1.iter().map(|p| &p[..]), mkf()))));
+                if utf8 && std::str::from_utf8(&first).is_ok() && std::str::from_utf8(&second).is_ok() {
+                    let srefs: Vec<&str> = ps1.iter().map(|p| std::str::from_utf8(p).unwrap()).collect();
+                    flip_cases.push((format!("HipStr<{bk}>::join[FlipSep]"), observe_str::<B>(|| HipStr::join(srefs.iter().copied(), mkf()))));
+                }
+                let allowed: Vec<Vec<u8>> = [&first, &second, &third].iter().map(|s| join_vec(ps1, s)).collect();
+                for (label, o) in flip_cases {
+                    st.evaluations += 1;
+                    st.hit(format!("{} flip-sep {}", label.split('<').next().unwrap_or("").to_string() + label.rsplit("::").next().unwrap_or(""),
+                        if second.len() < first.len() { "second-shorter" } else { "second-longer" }));
+                    let input = format!("{label} sep1={} sep2={} sep3={} pieces={p1}", hex(&first), hex(&second), hex(&third));
+                    st.distinct.insert(input.clone());
+                    let ok = match &o {
+                        Obs::Panic => true,
+                        Obs::Value { bytes, .. } => allowed.iter().any(|a| a == bytes),
+                    };
+                    if !ok {
+                        st.disagree(
+                            "impl-vs-oracle",
+                            input,
+                            format!("panic, or the join of the pieces with ONE of the separator's answers: {}", allowed.iter().map(|a| hex(a)).collect::<Vec<_>>().join(" | ")),
+                            obs_line(&o),
+                        );
+                    }
+                }
+            }
+        }
+    }
+
     // the model's answers
     let (m_concat, m_join) = match lean.as_mut() {
         Some(l) => (
